@@ -592,6 +592,9 @@ func New(config ...Config) *App {
 	}
 
 	app.config.TrustProxyConfig.ips = make(map[string]struct{}, len(app.config.TrustProxyConfig.Proxies))
+	// a Config taken from another app's Config() carries that app's parsed ranges: start empty,
+	// without touching the other app's slice
+	app.config.TrustProxyConfig.ranges = nil
 	for _, ipAddress := range app.config.TrustProxyConfig.Proxies {
 		app.handleTrustedProxy(ipAddress)
 	}
